@@ -241,6 +241,12 @@ def configs(tier, seed):
                     out.append(("B", dict(kind=kind, W=W, R=3, seed=seed, profile=prof, F=2, max_failures=mf, mra=(pi + mf) % 3 != 0,
                                           stop={"max_num_trials_started": 5}, wait=(pi % 2 == 0), k=2 if tier == "quick" else 3,
                                           max_exec=400 if tier == "quick" else 6000)))
+    # long runs with failures: beyond the first bracket of the synchronous schedulers, full PBT population
+    for kind in ("shb", "dehb", "pbt", "hb-promotion"):
+        for prof in (tunerx.PROFILES[0], tunerx.PROFILES[7]):
+            out.append(("B", dict(kind=kind, W=2, R=3, seed=seed, profile=prof, F=2, max_failures=3, mra=True,
+                                  stop={"max_num_trials_started": 10}, wait=True, k=2, loop_cap=400,
+                                  max_exec=500 if tier == "quick" else 4000)))
     return out
 
 
